@@ -75,9 +75,23 @@ type Evaluator struct {
 	globals map[*ssa.Global]*Cell
 	steps   int
 	budget  int
-	memo    map[string]memoRes
+	memo    map[memoKey]memoRes
+	finfo   map[*ssa.Function]*fnInfo
 	// summaries for calls outside the module: name -> result
 	depth int
+}
+
+type memoKey struct {
+	fn     *ssa.Function
+	n      int
+	a0, a1 uint64
+	k0, k1 uint8
+}
+
+type fnInfo struct {
+	index map[ssa.Value]int
+	n     int
+	free  [][]Val
 }
 
 type memoRes struct {
@@ -86,7 +100,7 @@ type memoRes struct {
 }
 
 func newEvaluator(c *Ctx) *Evaluator {
-	return &Evaluator{c: c, globals: map[*ssa.Global]*Cell{}, budget: 200000, memo: map[string]memoRes{}}
+	return &Evaluator{c: c, globals: map[*ssa.Global]*Cell{}, budget: 200000, memo: map[memoKey]memoRes{}, finfo: map[*ssa.Function]*fnInfo{}}
 }
 
 func basicOf(t types.Type) *types.Basic {
@@ -368,28 +382,66 @@ func mapKey(v Val) (string, bool) {
 
 type frame struct {
 	fn   *ssa.Function
-	env  map[ssa.Value]Val
+	env  []Val
+	idx  map[ssa.Value]int
 	prev *ssa.BasicBlock
 }
+
+func (e *Evaluator) info(fn *ssa.Function) *fnInfo {
+	if fi, ok := e.finfo[fn]; ok {
+		return fi
+	}
+	fi := &fnInfo{index: map[ssa.Value]int{}}
+	for _, p := range fn.Params {
+		fi.index[p] = fi.n
+		fi.n++
+	}
+	for _, b := range fn.Blocks {
+		for _, ins := range b.Instrs {
+			if v, ok := ins.(ssa.Value); ok {
+				fi.index[v] = fi.n
+				fi.n++
+			}
+		}
+	}
+	e.finfo[fn] = fi
+	return fi
+}
+
+func (fr *frame) set(v ssa.Value, x Val) { fr.env[fr.idx[v]] = x }
 
 // Call evaluates fn on args. Result is a single Val (TupleV for multi-results).
 func (e *Evaluator) Call(fn *ssa.Function, args []Val) (Val, *evalErr) {
 	if fn == nil || len(fn.Blocks) == 0 {
 		return nil, unsupported("function %v has no body", fn)
 	}
-	// memoise calls whose args are all scalars
-	key := ""
-	memo := true
-	for _, a := range args {
-		k, ok := mapKey(a)
-		if !ok {
-			memo = false
-			break
+	// memoise calls whose (at most two) args are all scalars
+	var key memoKey
+	memo := len(args) <= 2
+	if memo {
+		key.fn, key.n = fn, len(args)
+		for i, a := range args {
+			var bits uint64
+			var kind uint8
+			switch x := a.(type) {
+			case IntV:
+				bits, kind = x.Bits, 1
+			case BoolV:
+				kind = 2
+				if x {
+					bits = 1
+				}
+			default:
+				memo = false
+			}
+			if i == 0 {
+				key.a0, key.k0 = bits, kind
+			} else {
+				key.a1, key.k1 = bits, kind
+			}
 		}
-		key += "," + k
 	}
 	if memo {
-		key = fn.String() + key
 		if r, ok := e.memo[key]; ok {
 			return r.v, r.err
 		}
@@ -407,12 +459,26 @@ func (e *Evaluator) Call(fn *ssa.Function, args []Val) (Val, *evalErr) {
 }
 
 func (e *Evaluator) run(fn *ssa.Function, args []Val) (Val, *evalErr) {
-	fr := &frame{fn: fn, env: map[ssa.Value]Val{}}
+	fi := e.info(fn)
+	var env []Val
+	if k := len(fi.free); k > 0 {
+		env = fi.free[k-1]
+		fi.free = fi.free[:k-1]
+	} else {
+		env = make([]Val, fi.n)
+	}
+	defer func() {
+		for i := range env {
+			env[i] = nil
+		}
+		fi.free = append(fi.free, env)
+	}()
+	fr := &frame{fn: fn, env: env, idx: fi.index}
 	if len(args) != len(fn.Params) {
 		return nil, unsupported("arity mismatch calling %s", fn)
 	}
 	for i, p := range fn.Params {
-		fr.env[p] = args[i]
+		fr.set(p, args[i])
 	}
 	if len(fn.FreeVars) > 0 {
 		return nil, unsupported("closure %s", fn)
@@ -445,7 +511,7 @@ func (e *Evaluator) run(fn *ssa.Function, args []Val) (Val, *evalErr) {
 			phiVals = append(phiVals, v)
 		}
 		for i, p := range phis {
-			fr.env[p] = phiVals[i]
+			fr.set(p, phiVals[i])
 		}
 		for _, ins := range b.Instrs[len(phis):] {
 			e.steps++
@@ -505,7 +571,7 @@ func (e *Evaluator) run(fn *ssa.Function, args []Val) (Val, *evalErr) {
 				if err != nil {
 					return nil, err
 				}
-				fr.env[n] = v
+				fr.set(n, v)
 			default:
 				return nil, unsupported("instruction %T in %s", ins, fn)
 			}
@@ -544,8 +610,8 @@ func (e *Evaluator) get(fr *frame, v ssa.Value) (Val, *evalErr) {
 	case *ssa.Builtin:
 		return OpaqueV{"builtin"}, nil
 	}
-	if x, ok := fr.env[v]; ok {
-		return x, nil
+	if i, ok := fr.idx[v]; ok && fr.env[i] != nil {
+		return fr.env[i], nil
 	}
 	return nil, unsupported("value %s (%T) not evaluated", v.Name(), v)
 }
